@@ -1,5 +1,5 @@
 """C18 — thread safety with locking enabled."""
-import re, json, collections, concurrent.futures
+import re, os, json, collections, concurrent.futures
 from ..main import Violation
 from .. import gen, core, threads
 
@@ -81,7 +81,16 @@ def hard_checks(ops, rc, log, err):
 def run_one(ops, seed, budget, pct, force, want_lin):
     with core.Scratch("thr") as d:
         rc, log, err = threads.run_threads(ops, d.dir, seed=seed, budget=budget, pct=pct, force=force)
+        leaked = []
+        for m in re.finditer(r"^M nop secret ([0-9a-f]+)$", ops, re.M):
+            sec = bytes.fromhex(m.group(1))
+            for dp, dn, fn in os.walk(os.path.join(d.dir, "tokens")):
+                for f in fn:
+                    try:
+                        if sec[:16] in open(os.path.join(dp, f), "rb").read(): leaked.append(f)
+                    except OSError: pass
     hard = hard_checks(ops, rc, log, err)
+    if leaked: hard = hard + [("plaintext-on-disk", "the value of a PRIVATE key (announced by `nop secret`) is in the token directory in the clear: file(s) %s (C06 under threads)" % ", ".join(sorted(set(leaked))[:3]))]
     calls, yields, npre = threads.parse_log(log)
     lin = None
     if not hard and want_lin:
@@ -110,11 +119,14 @@ def run_k(ctx, kres):
     ex = concurrent.futures.ThreadPoolExecutor(core.JOBS)
     # ---- K18-systematic ------------------------------------------------------------------------------
     kres["suites"] += 1
-    bases = list(ex.map(lambda s: run_one(s[1], 1, 0, -1, "", True), scen))
+    # the unwrap-private scenarios are explored for the hard oracles only (crash, deadlock, lost objects, and the C06 oracle: a private key's value in the clear on disk);
+    # their linearizability verdicts would repeat the known create-private/logout behaviour under other names
+    lin_wanted = lambda name: not name.startswith("unwrap-private")
+    bases = list(ex.map(lambda s: run_one(s[1], 1, 0, -1, "", lin_wanted(s[0])), scen))
     jobs = []
     for (name, ops, w), b in zip(scen, bases):
         for n in sample_points(b["yields"].get(0, 0), cap): jobs.append((name, ops, w, n))
-    res = list(ex.map(lambda j: (j, run_one(j[1], 1, 0, -1, "0:%d:%d" % (j[3], j[2]), True)), jobs))
+    res = list(ex.map(lambda j: (j, run_one(j[1], 1, 0, -1, "0:%d:%d" % (j[3], j[2]), lin_wanted(j[0]))), jobs))
     seen = set(); unexplained = 0
     for (name, ops, w), b in zip(scen, bases): res.append(((name, ops, w, 0), b))
     for (name, ops, w, n), r in res:
